@@ -274,6 +274,9 @@ func (P *Prog) verifyFunctionCase(fn *ssa.Function, con *Contract, caseParam str
 		}
 		// a clause labelled "...!assumed" is part of the contract callers rely on but is not checked against
 		// the body (it describes code outside the verifier's reach); it is reported as an assumption
+		if strings.HasSuffix(lbl, "!onpanic") {
+			continue // checked where the function panics (instr.go), not at its normal exit
+		}
 		if strings.HasSuffix(lbl, "!assumed") {
 			vc.trusted[res.Name+" ["+lbl+"] "+e.Src+" (clause assumed, not proved)"] = true
 			continue
